@@ -283,19 +283,7 @@ func (b *basicCommonValidator) Validate(data interface{}) (res *Result) {
 	}
 
 	for _, enumValue := range b.Enum {
-		actualType := reflect.TypeOf(enumValue)
-		if actualType == nil { // a null member: it matches the null instance, and nothing else
-			if data == nil {
-				return nil
-			}
-
-			continue
-		}
-
-		expectedValue := reflect.ValueOf(data)
-		if expectedValue.IsValid() &&
-			expectedValue.Type().ConvertibleTo(actualType) &&
-			reflect.DeepEqual(expectedValue.Convert(actualType).Interface(), enumValue) {
+		if valuesEqual(data, enumValue) {
 			return nil
 		}
 	}
